@@ -2,19 +2,20 @@
 """Regenerates DESIGN.md section 10 (seeded changes) from /verif/seeded/*/meta.json."""
 import json, glob, os, re
 rows = []
-stats = {1: [0, 0, 0, 0], 2: [0, 0, 0, 0], 3: [0, 0, 0, 0]}  # n, first caught, first inconclusive, final caught
+stats = {1: [0, 0, 0, 0], 2: [0, 0, 0, 0], 3: [0, 0, 0, 0], 4: [0, 0, 0, 0]}  # n, first caught, first inconclusive, final caught
 for f in sorted(glob.glob('/verif/seeded/*/meta.json')):
     m = json.load(open(f)); d = os.path.basename(os.path.dirname(f))
     suf = d.split('-')[1]
-    rnd = {'A': 1, 'A2': 1, 'B': 1, 'C': 2, 'D': 3}[suf]
+    rnd = {'A': 1, 'A2': 1, 'B': 1, 'C': 2, 'D': 3, 'E': 4}[suf]
     what = (m.get('what_it_needs', '').strip().split('\n') or [''])[0][:140].replace('|', '\\|')
     c = m.get('checks', {}).get(m['property'], {})
     fa = m.get('first_attempt', '')
     st = stats[rnd]; st[0] += 1
     if fa.startswith('caught'): st[1] += 1
     elif fa.startswith('inconclusive'): st[2] += 1
-    if c.get('detected'): st[3] += 1
-    final = 'caught (%ss): %s' % (c.get('wall_s'), ('; '.join(c.get('what', [])))[:110].replace('|', '\\|')) if c.get('detected') else 'NOT caught (exit %s)' % c.get('exit')
+    sib = [k for k, v in m.get('checks', {}).items() if k != m['property'] and v.get('detected')]
+    if c.get('detected') or sib: st[3] += 1
+    final = 'caught (%ss): %s' % (c.get('wall_s'), ('; '.join(c.get('what', [])))[:110].replace('|', '\\|')) if c.get('detected') else ('not by %s (exit %s); caught by the check of %s (%ss): %s' % (m['property'], c.get('exit'), sib[0], m['checks'][sib[0]].get('wall_s'), '; '.join(m['checks'][sib[0]].get('what', []))[:90].replace('|', '\\|')) if sib else 'NOT caught (exit %s)' % c.get('exit'))
     if m.get('rebased'): final += ' *(patch re-made on the repaired tree)*'
     rows.append('| %s | %s | %s | %s |' % (d, what, fa.replace('|', '\\|'), final))
 n = sum(s[0] for s in stats.values()); fc = sum(s[3] for s in stats.values())
@@ -38,7 +39,7 @@ property's quick check was run against the changed tree (a scratch worktree
 passed through `VERIF_REPO`; `git -C /repo apply … ; ./vcheck run … ; git -C
 /repo checkout -- .` gives the same result and was used for spot checks), and
 the tree was discarded. The kept material is in
-`/verif/seeded/<property>-<A|B|C|D>/` (`patch.diff`, `demo_test.go`,
+`/verif/seeded/<property>-<A|B|C|D|E>/` (`patch.diff`, `demo_test.go`,
 `meta.json`: what it needs to manifest, what was run, the first and the final
 result). Because the repairs of §7 edit the same files, %d patches stopped
 applying and were re-made on the repaired tree (same slip, demonstration
@@ -68,12 +69,29 @@ closed in the harness or engine, never by special-casing the seed. **Final
 state: %d of %d caught at the quick tier** (last pass over all %d on the final
 tree and checks: `tools/seedfinal.sh`).
 
+**Round 4** (suffix E, 12 properties: C02, C03, C05, C06, C08, C10, C11, C13, C14, C17, C19, C20; same brief as
+round 3, told about the four earlier changes of their property): first attempt %d of %d caught by the
+property's own check, 1 more (C06-E, `TrimSpace` between two trimming tags) not by C06 but by C15's check,
+whose subject it is, %d inconclusive, the rest missed. What was missing and what was added - again in the
+generator or the engine, never for the seed: C14-E (a fast path for literal-only templates that skips
+context validation and hands out an aliased buffer) -> `HarnessC14Shapes`: degenerate template shapes x a
+context key of symbolic bytes x a second round of all four variants after the caller scribbled over the
+first results; C19-E and C13 (macro defaults evaluated among the macro's own parameters) -> positions
+13/14 of `HarnessC19Positions`; C11-E (per-load memo shares one compiled base between two children) ->
+forms 24/25 of `HarnessC11`; C02-E (safe flag of a named cycle frozen at registration) -> three routes
+with named cycles that mix macro output and tainted text and are advanced by name; C08-E ended as exit 2
+because the engine had no model of `reflect.Type.ConvertibleTo`/`Value.Convert` -> modelled with go/types'
+conversion rules and the engine's own `conv`; C20-E (per-slot `sync.Once`, failed load deletes the slot
+by name) was flagged by the critical-section monitor but its native demonstration did not reproduce it
+(exit 2) -> the demonstration now also stages a failing load that is overtaken by `CleanCache` and a
+successful reload. All 12 are caught now.
+
 The round-3 agents' reports about the unchanged tree were the most productive
 input of the whole exercise: 20 of the 41 repairs of §7 start from them. Each
 was turned into a generator region first, so that the check finds it by itself
 (and keeps finding it: the corresponding `fixed:` entries suppress nothing).
 
-''' % (nreb, stats[1][1], stats[1][0], stats[1][2], stats[2][1], stats[2][0], stats[2][2], stats[3][1], stats[3][0], stats[3][2], stats[3][0]-stats[3][1]-stats[3][2], fc, n, n) + table + '\n\n'
+''' % (nreb, stats[1][1], stats[1][0], stats[1][2], stats[2][1], stats[2][0], stats[2][2], stats[3][1], stats[3][0], stats[3][2], stats[3][0]-stats[3][1]-stats[3][2], fc, n, n, stats[4][1], stats[4][0], stats[4][2]) + table + '\n\n'
 s = open('/verif/DESIGN.md').read()
 a = s.index('## 10. Seeded changes'); k = s.index('## 11. Alarms that were the machinery')
 open('/verif/DESIGN.md', 'w').write(s[:a] + sec + s[k:])
